@@ -20,6 +20,11 @@ def histories(tier):
              g.supersede('bob', 'dark', '0.95'), g.archive('Carol'), g.archive('Deploy X'), g.tombstone('Step one'),
              g.merge('Dave', 'Bob'), g.claim('alice', 'tabs', '0.3'), g.unknown_type_last('alice'),
              g.tombstone('Bob'), g.archive('dark')]
+    for removal in ("ARCHIVE", "TOMBSTONE"):
+        for link in (("S1", "S2"), ("S2", "S3"), ("S3", "S4")):
+            hs.append({"name": f"path-{removal}-{link[0]}", "battery": g.BATTERY, "replay": True,
+                       "stmts": [{"text": t} for t in [g.chain(), g.cut_link(removal, *link),
+                                                        g.update_summary('S1', 'revised'), g.archive('S4')]]})
     hs.append({"name": "every-later-kind", "stmts": [{"text": t} for t in base + later], "battery": g.BATTERY, "replay": True})
     for i, lt in enumerate(later):
         hs.append({"name": f"one-later-{i}", "stmts": [{"text": t} for t in base + [lt, g.update_summary('Bob', 'after')]],
@@ -52,8 +57,8 @@ def run(tier):
         "evaluations": stats["queries"],
         "distinct_nontrivial": stats["statements"],
         "rule": "T: histories of committed statements (create / upsert / update / rename / archive / tombstone / retract / "
-                "supersede / merge, plus refused ones) on a fresh nexus; after every commit a battery of 12 queries "
-                "(element, tuple, structural, joined structural, filter, explicit-state, aggregate and ordered "
+                "supersede / merge, plus refused ones) on a fresh nexus; after every commit a battery of 19 queries "
+                "(element, tuple, structural, joined structural, filter, explicit-state, aggregate, ordered and hop-quantified path "
                 "patterns) is recorded live (History.tla: Commit); after EVERY later statement every earlier point is "
                 "replayed AS OF SEQ s, and every third statement also AS OF TX and AS OF TIME of that point: each "
                 "answer must be AsOf(s) (byte-equal result digests); AppendOnly as a temporal property; the epistemic "
